@@ -258,6 +258,24 @@ EXTRA = {
            "E8.hook-receiver — forward hooks are not bound to one instance; E8.guard-placement.",
 }
 
+EXTRA2 = {
+    'C01': ' Rounds 4-5: Grid.cube()/domain()/Cube.from_grid extents on fractional-size grids; same_domain_as of two same-cube grids.',
+    'C02': ' Rounds 4-5: nearest-index points with negative fractional continuous indices; sample 0 of crop/pad/ROI/pool grids (shared T9.crop-family).',
+    'C03': ' Rounds 4-5: chains of operations after a downsample (sizes derived from a non-integral internal size).',
+    'C04': ' Rounds 4-5: T13.resample (returned grids and sampled positions for dividing and non-dividing factors); T13.conv (per-axis kernel sizes, margins and crop).',
+    'C05': ' Rounds 4-5: a translation given as (1, D, 1); the same module called again without a transform behaves as on its first call.',
+    'C06': " Rounds 4-5: functional setters data(p)/grid(g) (T67.derived-views); disp on a grid that differs in the flag only; EulerRotation's defining matrix (shared T2.euler-matrix).", 'C07': " Rounds 4-5: re-gridding the inverse keeps the negated scale; QuaternionRotation's matrix is a rotation for non-unit parameters (shared T7.quat-to-matrix).", 'C08': ' Rounds 4-5: quaternion log/exp on unit quaternions with rational components (T7.quat-log-exp); angle-axis to matrix: sense of rotation, fixed axis, tiny-angle branch (T7.angle-axis).',
+    'C09': ' Rounds 4-5: operations keyword conditioning, conditioning a copy, a step of the predicting network, data(p)/grid(g) copies, link_/unlink_; resize=False configurations; flag-only re-gridding; T6x.unlink-slot (1 recorded finding); inverse-velocity rule shared with C07.',
+    'C10': " Rounds 4-5: default axes of FlowField(s) follow the grid's flag on every construction path (T10x.default-axes).", 'C11': ' Rounds 4-5: the transforms hand steps/scale to the recurrence (T11x.svf-steps); re-gridding an SVF keeps the convention of its exponential map (shared T6x.regrid).',
+    'C12': ' Rounds 4-5: per-axis strides and both key spellings of the spline mode; per-axis spacing vector when N = D; which spacing a Gaussian derivative is divided by (T5.gaussian-spacing); no float32 intermediate under float64 input in any of 8 modes (T5.dtype); FlowFields.curl.',
+    'C13': ' Rounds 4-5: two explicit logv iterations on the given flow with the input unchanged (T4.logv-iteration); T5.dtype and T5.gaussian-spacing shared (the Lie bracket is built from Jacobians).',
+    'C14': ' Rounds 4-5: subdivide for every spelling of dims; transposed evaluation with explicitly supplied kernels of derivative orders 0-2; update histories of the spline models.',
+    'C15': " Rounds 4-5: every spatial operation of ImageBatch / Image / FlowFields with options differing from the receiver's; accessors of composite transforms (2 recorded findings).", 'C16': ' Rounds 4-5: batches are scored per pair; mi/nmi are symmetric in their arguments (T16.mi-symmetry, Parzen windows as function atoms, concrete rational pairs).',
+    'C17': ' Rounds 4-5: options derived in constructors over {None, 0, 1, 2, 1/2} (T17.module-values); boundary Lame parameters lambda = 0 / mu = 0.',
+    'C18': ' Rounds 4-5: to_uri/from_uri; channel-less data; every SimpleITK integer pixel type reaches torch without wrapping (T18.sitk-types).',
+    'C19': ' Rounds 4-5: grids equal up to align_corners under deepcopy; tuple/keyword/out= forms of cat-like functions; a result with D components stays a flow field.',
+    'C20': ' Rounds 4-5: E8.buffer-graph (every attribute written on the evaluation path from the learnable state stays connected); T20.generic-leaf (components of a network-driven GenericSpatialTransform hold the predicted tensors themselves: no new leaf, no detach/.data); T5.dtype (no float32 intermediate under float64 inputs).'}
+
 
 def main():
     sys.path.insert(0, HERE)
@@ -272,7 +290,7 @@ def main():
             na.append({"property_id": pid, "reason": reason})
             continue
         _, engine, technique, text, ref = ent
-        text = text + EXTRA.get(pid, "")
+        text = text + EXTRA.get(pid, "") + EXTRA2.get(pid, "")
         checks.append({
             "property_id": pid,
             "quick_cmd": f"./check {pid} --tier quick",
